@@ -89,7 +89,7 @@ PLANS = {
               # escapes that denote a special character, values displayed in pieces) against the specification rendering
               dict(suite='e2e', n=dict(quick=400, thorough=6000), projection='identity', tags=['C02'])],
         correspondence='bytes accepted by the sink and Ok/Err result of ToHtml::to_html (public API) vs Esc.toHtmlDisplay, for the same (pieces, schedule)',
-        rule='exhaustive: all strings over {<,>,&,",\',a,é,space} up to length 3 (quick) / 4 (thorough) x all compositions into pieces x all schedules over {accept 1, accept 2, accept all, Interrupted} up to length 3 / 4 (all schedules for the finest and coarsest chunkings, every 7th otherwise); random: long strings, random chunking, schedules with Ok(0) and permanent failure. non-trivial = text contains a special byte; distinct = distinct (mode, text)',
+        rule='exhaustive: all strings over {<,>,&,",\',a,é,space} up to length 3 (quick) / 4 (thorough) x all compositions into pieces x all schedules over {accept 1, accept 2, accept all, Interrupted} up to length 3 / 4 (all schedules for the finest and coarsest chunkings, every 7th otherwise); random: long strings, random chunking, schedules with Ok(0) and permanent failure. non-trivial = text contains a special byte; distinct = distinct (mode, text); neighbour bytes of every special (off by one, one bit away) before and after it at every offset of a 24-byte run; the Display replayer uses write_str, write_char, write! and write_fmt; e2e: every @expression of compiled templates incl. literal expressions whose escapes denote a special',
         assumptions=HTML_ASSUME,
         trusted=['std io::Write::write_all / write_fmt are modelled (library/std/src/io/mod.rs) and validated by the tie'],
         level_text='Theorems toHtml_any_schedule / toHtml_prefix / unescape_escape / escape_no_raw hold for every piece list and every sink schedule (no bound); the model is tied to templates/utils.rs by an exhaustive-plus-random differential run through the public ToHtml API and by a kernel-checked theorem over the entity table extracted from the source on every run.',
@@ -102,7 +102,7 @@ PLANS = {
                   'Esc.C06.toBuffer_idempotent', 'Esc.C06.escape_not_idempotent', 'Esc.C06.buffer_eq_iff'],
         runs=[dict(suite='html', n=dict(quick=20000, thorough=600000), projection='identity', tags=['C06'])],
         correspondence='sink bytes and result of Html(..).to_html, to_buffer(), HtmlBuffer::to_html, to_buffer().to_buffer() and the PartialEq impls vs Esc.toHtmlRaw / toBufferDisplay / bufferToHtml / bufferToBuffer / bufferEq',
-        rule='same case stream as C02 with modes raw / buf / bufbuf; non-trivial = text contains a special byte; distinct = distinct (mode, text)',
+        rule='same case stream as C02 with modes raw / buf / bufbuf; non-trivial = text contains a special byte; distinct = distinct (mode, text); a user ToHtml impl that writes and then fails is rendered between the cases on the same thread',
         assumptions=HTML_ASSUME,
         trusted=['std io::Write::write_all / write_fmt are modelled and validated by the tie'],
         level_text='Theorems html_raw, toBuffer_eq, buffer_verbatim, buffer_roundtrip, toBuffer_idempotent, buffer_eq_iff hold for every text, chunking and schedule; escape_not_idempotent shows they are not vacuous. Tie: differential run through Html(..), to_buffer(), HtmlBuffer::to_html, as_ref and == of the public API.',
@@ -135,7 +135,7 @@ PLANS = {
               # the generated function is that of the template as it is now, whatever OUT_DIR held before
               dict(suite='script', mix='history', n=dict(quick=50, thorough=500), projection='script+files', tags=['C01'])],
         correspondence='syntax tree of the parse and the body of the generated code vs Ructe.template / Ructe.writeRust; every printed text literal is decoded by the Lean model of rustc\'s literal lexer and compared with the text node',
-        rule='every ASCII code point except @{} alone / at the start / middle / end of a run, at 7 nesting positions; random text over quotes, backslashes, CR/LF, NUL, controls, multi-byte scalars, escape look-alikes, the three escapes, comments; structured templates with their documented tree; non-trivial = distinct accepted syntax trees',
+        rule='every ASCII code point except @{} alone / at the start / middle / end of a run, at 7 nesting positions; random text over quotes, backslashes, CR/LF, NUL, controls, multi-byte scalars, escape look-alikes, the three escapes, comments; structured templates with their documented tree; non-trivial = distinct accepted syntax trees; long literal runs (130 .. 8200 bytes); histories (restored / renamed templates, residue in OUT_DIR): the generated function is that of the template as it is now',
         assumptions=['rustc lexes literals as the Rust Reference says (modelled by decodeStrLit / decodeByteStrLit; rustc itself is the judge in the e2e runs)'],
         level_text='Proved for all inputs: textLit_ascii / textLit_nonascii (the printed literal lexes to exactly the text: every byte string resp. every valid UTF-8 text, every uniEsc), text_node_sound / comment_node_sound / node_consumes (what a text or comment node accounts for in the source), text_complete / escapes_complete, lower_text, render_text; with C11.template_accepts_whole every byte is accounted for: C01Body proves this for EVERY accepted template, with no well-formedness hypothesis: body_accounting (the input is the header followed by the spans of the body nodes, in order, without gaps or overlaps), literal_bytes_accounted (every part is literal text whose node carries exactly the bytes of the span, one of the three escapes, or an @-construct whose span starts with @ - nothing dropped, duplicated or reordered), block_accounting (the same inside every block body and match arm); C01Blocks closes the recursion: node_blocks (every list of nodes directly inside any node - the body of an @if and of its else, of an @for, every @match arm, every {..} block argument of a call - was produced by template_block resp. many0(template_expression) on a piece of the source; an else-if is again an @if node), so blockBody_accounting / argument_accounting apply at every nesting position. In the other direction C13Header.template_complete / C15Tree.body_complete: every well-formed source (header + body tree, any nesting) parses to exactly its intended tree, text nodes and escapes at every nesting position byte for byte, comments as comment nodes, and the only dropped body text is the layout after the declaration (hypothesis StopsLayout on the body, with the counterexample that forces it). Tie: differential run on tree and code, printed literals decoded by the model lexer, rustc end-to-end rendering.',
         level_note='Trusted: Lean kernel; hand-written model of the parser/emitter and of Rust literal syntax.',
@@ -164,7 +164,7 @@ PLANS = {
               # the signature in OUT_DIR is the one of the template as it is now (histories: renamed / restored templates)
               dict(suite='script', mix='history', n=dict(quick=50, thorough=500), projection='script+files', tags=['C13'])],
         correspondence='the printed signature (use lines, lifetime list, parameter lines) of every accepted template vs Ructe.fnHeader',
-        rule='0..8 parameters over 16 type shapes incl. Content / ContentType / Contents / MyContent / &Content / Vec<Content>, 7 colon layouts, parameter names resembling internals, 0..3 use lines incl. renames/globs/nested braces; non-trivial = distinct accepted syntax trees',
+        rule='0..8 parameters over 16 type shapes incl. Content / ContentType / Contents / MyContent / &Content / Vec<Content>, 7 colon layouts, parameter names resembling internals, 0..3 use lines incl. renames/globs/nested braces; non-trivial = distinct accepted syntax trees; exact generic parameter list (declared lifetimes verbatim, then the sink type); histories',
         assumptions=['that calls with values of the declared types type-check is rustc\'s judgement (e2e)'],
         level_text='Theorems about printParam (only a parameter whose type is exactly Content is rewritten) and fnHeader (sink first, parameters in order, use lines verbatim). Completeness of the declaration parser is proved for the whole supported type grammar (C13Header: typeExpression_complete over references, lifetimes, impl / dyn, names, slices, tuples with trailing commas and lifetime elements, generic argument lists, nested to any depth; formalArgument_complete: the recognised value is exactly the source span name-layout-colon-layout-type), and for whole templates: template_complete — for every well-formed header (use lines, lifetime list, parameter list, with layout / white-space slots) and every well-formed body source tree, template (print header ++ print body) is the intended Template with args and use lines verbatim (args_verbatim, use_verbatim, typeArgs_verbatim); signature_of_source states the generated signature in terms of the source spans end to end. Tie on the printed signature; independent oracle recomputes the expected parameter lines from the source.',
         level_note='Trusted: Lean kernel; hand-written model of write_rust.',
@@ -215,7 +215,7 @@ PLANS = {
               # the same promises when OUT_DIR is not empty: earlier builds, restored / renamed templates, residue
               dict(suite='script', mix='history', n=dict(quick=50, thorough=500), projection='script+files', tags=['C10'])],
         correspondence='the whole OUT_DIR (paths and bytes) and stdout of compile_templates on a directory tree vs Ructe.build given the observed read_dir order',
-        rule='random trees to depth 4 with identifier stems / directory names, mixed suffixes, same stem under different suffixes, non-template files, empty directories, broken templates among valid ones; oracle: exactly the expected files, each the code generated for that template alone, declaration chains present, broken templates warned and undeclared; non-trivial = distinct run outputs',
+        rule='random trees to depth 4 with identifier stems / directory names, mixed suffixes, same stem under different suffixes, non-template files, empty directories, broken templates among valid ones; oracle: exactly the expected files, each the code generated for that template alone, declaration chains present, broken templates warned and undeclared; non-trivial = distinct run outputs; template files that are not valid UTF-8, empty stems, tail-pair names, symlinked templates; histories (the module tree of the incremental OUT_DIR is that of a clean build)',
         assumptions=['file and directory names are UTF-8', 'that the declared functions are callable at every depth is rustc\'s name resolution (e2e)'],
         level_text='Proved by induction on the tree (no depth bound): tree_mirror_file, subdir_mod_declared, template_fn_declared, decl_only_with_file, broken_isolated, others_silent, valid_template_declared, broken_template_reported, subdir_declared, handleEntries_append; suffix_table over the list extracted from lib.rs on every run. Tie on the whole OUT_DIR + independent oracle on file set, contents, declarations and warnings.',
         level_note='Trusted: Lean kernel; hand-written model of lib.rs on an abstract file system.',
@@ -229,7 +229,7 @@ PLANS = {
                   'Ructe.C12.second_run_writes_only_conflicts', 'Ructe.C12.foldl_applyWrite_only_conflicts'],
         runs=[dict(suite='script', mix='history', n=dict(quick=120, thorough=1200), projection='script+files+writes', tags=['C12'])],
         correspondence='OUT_DIR contents after a run and the set of physically rewritten files (mtime) vs Ructe.build / writeIfChanged on the observed prior OUT_DIR state',
-        rule='edit histories (add / modify / delete / break templates, sub-directories, statics) of 1..4 edits with a run after each, output files replaced by garbage / non-UTF-8 / truncated at 0, mid, len-1 bytes; every run compared with a clean build into an empty directory; a directly repeated run must rewrite nothing; non-trivial = distinct run outputs',
+        rule='edit histories (add / modify / delete / break templates, sub-directories, statics) of 1..4 edits with a run after each, output files replaced by garbage / non-UTF-8 / truncated at 0, mid, len-1 bytes; every run compared with a clean build into an empty directory; a directly repeated run must rewrite nothing; non-trivial = distinct run outputs; residue: outputs with their lines permuted, files next to the outputs (<output>.tmp, <output>~) larger than any output; edits that only exchange lines',
         assumptions=['an output path is a file or absent', 'read_dir yields the same order for an unchanged directory'],
         level_text='Proved for every prior OUT_DIR state (any earlier builds, truncations, garbage): applyWrite_post, runLog_get, incremental_eq_clean, untouched_elsewhere, stdout_independent, second_run_silent, silent_when_up_to_date, writes_subset; the quantifier of the property is also constructed explicitly (crashedAt: a build that died at request k with the file cut at any length; afterHistory: any sequence of earlier builds over other inputs, each possibly dying) with history_then_run_eq_clean and rerun_repairs_truncation as corollaries. second_run_writes_only_conflicts removes the Consistent hypothesis of second_run_silent: a repeated run physically writes ONLY paths for which the run itself contains two requests with different contents (two template directories holding a template of the same name - a configuration whose generated code does not compile anyway); every other path is left untouched, whatever OUT_DIR held before. Tie on contents and physical writes (mtime); oracle: byte-identical to a clean build, repeated run writes nothing.',
         level_note='Trusted: Lean kernel; hand-written model; a crash during the run under test is outside the model (the theorem quantifies over what earlier crashes left).',
@@ -254,7 +254,7 @@ PLANS = {
         theorems=['Ructe.C07.urlName_shape', 'Ructe.C07.base64_6_injective', 'Ructe.C07.slug_eq_iff', 'Ructe.C07.slug_shape', 'Ructe.C07.publishedName_pure', 'Ructe.C07.addHashed_publishes', 'Ructe.C07.nameAndExt_shape'],
         runs=[dict(suite='script', mix='statics', n=dict(quick=200, thorough=1500), projection='script+names', tags=['C07'], statics_oracle=True)],
         correspondence='get_names() (identifier -> URL name) after a script vs Ructe.namesAfter (Lean MD5 + base64)',
-        rule='contents: empty, 1 byte, all 256 byte values, MD5 block edges 55/56/57/63/64/65/119/120/128, random; 58 file names (several dots, trailing dot, leading dot, dashes, every punctuation byte, non-ASCII); add_file / add_files / add_file_data in shuffled orders from different directories; oracle: python hashlib.md5 + base64 recomputation; non-trivial = items checked',
+        rule='contents: empty, 1 byte, all 256 byte values, MD5 block edges 55/56/57/63/64/65/119/120/128, random; 58 file names (several dots, trailing dot, leading dot, dashes, every punctuation byte, non-ASCII); add_file / add_files / add_file_data in shuffled orders from different directories; oracle: python hashlib.md5 + base64 recomputation; non-trivial = items checked; paths as handed to the API (absolute, relative, ./x, dir/../x, across a symlink, trailing separator); symbolic links inside listed directories; oracle hash-not-of-content: every printed item with a hashed name carries the hash of the complete bytes at its path',
         assumptions=['changing a byte changes the name unless MD5 collides on its first 48 bits'],
         level_text='Proved: urlName_shape, addHashed_publishes, publishedName_pure (same file name and bytes => same published name from any location / handler state / entry point), nameAndExt_shape, base64_6_injective, slug_shape, slug_eq_iff (names differ iff the first 48 hash bits differ, for every hash function), md5_length. Tie on get_names() + independent hashlib/base64 oracle incl. contents across I/O buffer boundaries.',
         level_note='Trusted: Lean kernel; hand-written model; md5 / base64 crates assumed to implement RFC 1321 / RFC 4648 (cross-checked against the Lean MD5 and hashlib on every run).',
@@ -284,7 +284,7 @@ PLANS = {
               # STATICS after a build that also compiled stylesheets, some of which failed (oracle added-but-not-in-STATICS)
               dict(suite='sass', features=['sass'], n=dict(quick=80, thorough=1500), projection='identity', tags=['C09'])],
         correspondence='the STATICS line and names of statics.rs vs the model',
-        rule='as C07 with name sets straddling - . _ digits upper/lower case and common prefixes, shuffled insertion orders (twins); oracle: STATICS lists each published name once in ascending byte order; non-trivial = items checked',
+        rule='as C07 with name sets straddling - . _ digits upper/lower case and common prefixes, shuffled insertion orders (twins); oracle: STATICS lists each published name once in ascending byte order; non-trivial = items checked; sass suite (real rsass): after a build with succeeding and failing stylesheets STATICS lists everything get_names() showed',
         assumptions=['Rust Ord for str and BTreeMap<String,_> are byte-lexicographic; binary_search_by_key finds an element iff present in a sorted slice'],
         level_text='Proved for whole histories of additions: statics_complete, statics_sorted_nodup, statics_order_independent, get_finds_exactly_added, plus btree_insert_sorted / btree_keys / btree_perm / get_sound / get_complete / get_exact / staticsLine_lists. Tie + oracle on STATICS order + rustc-compiled module probed with StaticFile::get on members and near misses.',
         level_note='Trusted: Lean kernel; hand-written model; std BTreeMap / binary_search contracts.',
@@ -299,7 +299,7 @@ PLANS = {
               # get_names() across add_sass_file calls, succeeding and failing ones (oracle names-lost)
               dict(suite='sass', features=['sass'], n=dict(quick=80, thorough=1500), projection='identity', tags=['C16'])],
         correspondence='identifiers (keys of get_names(), item names) vs Ructe.mangle',
-        rule='as C07; oracle: identifier = every non-alphanumeric char replaced by _, n before a leading digit, legal Rust identifier; non-trivial = items checked',
+        rule='as C07; oracle: identifier = every non-alphanumeric char replaced by _, n before a leading digit, legal Rust identifier; non-trivial = items checked; sass suite: get_names() is monotone across add_sass_file calls, failing ones included',
         assumptions=['char::is_alphanumeric on non-ASCII scalars is a parameter of the model'],
         level_text='Proved: mangle_ascii (the stated rule), mangle_is_ident / mangle_is_ident_url (legal identifier), mangle_not_keyword, getNames_maps / getNames_keeps / getNames_maps_all (whole histories). Tie + python re-derivation oracle + every item named from rustc-compiled code.',
         level_note='Trusted: Lean kernel; hand-written model.',
@@ -325,7 +325,7 @@ PLANS = {
                   'Ructe.C20.static_name_exact', 'Ructe.C20.static_name_nonmember_error', 'Ructe.C20.hashed_url_determines_name', 'Ructe.C20.publishedAs_hashed', 'Ructe.C20.publishedAs_verbatim', 'Ructe.C20.hashedForm_iff', 'Ructe.C20.pinned_ident_collision'],
         runs=[dict(suite='sass', features=['sass'], n=dict(quick=150, thorough=3000), projection='identity', tags=['C20'])],
         correspondence='what static_name("f") evaluates to inside add_sass_file (recovered from the published name of the compiled CSS) or the build error, vs Ructe.staticName on get_names() before the call',
-        rule='sets of 1..6 previously added files from 30 names (dashes, dots, underscores, leading digits, spaces, every punctuation byte rsass accepts in a string, non-ASCII letters), added through add_file and add_file_data; one scss per reference; references to every member, to non-members and to a name never used; non-trivial = distinct queried names',
+        rule='sets of 1..6 previously added files from 30 names (dashes, dots, underscores, leading digits, spaces, every punctuation byte rsass accepts in a string, non-ASCII letters), added through add_file and add_file_data; one scss per reference; references to every member, to non-members and to a name never used; non-trivial = distinct queried names; every second case is built twice into the same OUT_DIR with new member contents',
         assumptions=['rsass calls the builtin with the literal argument and fails the build on CallError (opaque)', 'the compiled CSS of `a{b:static_name("f")}` is `a{b:"<url>"}` (optionally behind a BOM / @charset)'],
         level_text='Proved: static_name_total (every file added before is found and resolves to its published name: verbatim names by publishedAs_verbatim, hashed names by publishedAs_hashed + C07.slug_shape), static_name_stable, static_name_never_wrong, static_name_exact (whatever static_name(f) evaluates to is literally a published form of the REQUESTED name: f itself or stem-<8 bytes>.ext with the stem and extension of f), hashed_url_determines_name + static_name_nonmember_error (the hashed URL of a file g passes the test for f only if f and g have the same stem and extension: a name that was not added is a build error even when it shares its identifier with a member), static_name_missing, sass_css_added (the CSS is published as <stem>-<hash of the css>.css for whatever rsass produced). Tie + oracle through add_sass_file with the real rsass (members added through add_file, add_file_data and add_file_as).',
         level_note='Trusted: Lean kernel; hand-written model; rsass is opaque.',
